@@ -9,6 +9,9 @@
 (***************************************************************************)
 EXTENDS Chars, Dpkg, Rpm, Alpm, MavenCV, Pep440, ShorthandSem
 
+\* a composer version with a stability marker (any letter after an optional leading "v")
+ComposerUnstable(cs) == \E i \in 2..Len(cs) : IsAlpha(cs[i])
+
 \* mm is a mismatch record; the fields used depend on the deviation.
 Dev(d, mm) ==
   CASE d = "none" -> FALSE
@@ -37,6 +40,13 @@ Dev(d, mm) ==
     [] d = "KF-hex-01" -> mm.prop = "C05" /\ mm.eco = "hex" /\ mm.why = "contains" /\ mm.construct = "pess2"
                           /\ LET lo == mm.ivs[1].lo IN
                              lo[2] > 0 /\ mm.got = InIv(mm.p, Iv(lo, TRUE, V(lo[1], lo[2] + 1, 0, 3), FALSE))
+    \* composer: a caret range with a stable base excludes every non-stable version by special cases on
+    \* the parsed fields and even on the text ("^1.0.0" contains "1.0b1" only), so it is neither convex nor
+    \* consistent on equal versions; pinned by the repository's tests.  Known iff the range is a caret
+    \* range and the version that is left out (or the differing pair) is a non-stable version.
+    [] d = "KF-composer-01" -> mm.prop = "C20" /\ mm.eco = "composer" /\ mm.text # "" /\ S2C(mm.text)[1] = 94
+                               /\ (IF mm.why = "convex" THEN ComposerUnstable(S2C(mm.b)) /\ ~mm.inb
+                                   ELSE mm.why = "equal-versions" /\ ComposerUnstable(S2C(mm.a)) /\ ComposerUnstable(S2C(mm.b)))
     [] d = "KF-rpm-01" -> mm.prop = "C11" /\ mm.why = "ref" /\ RpmImplCmp(S2C(mm.a), S2C(mm.b)) = mm.got
     [] OTHER -> FALSE
 
@@ -47,6 +57,10 @@ Irregular(open, eco, cs) ==
 \* the model of what the code computes on such members (the finding's predicted answers)
 IrrKey(eco, cs) == IF eco = "maven" THEN MvParseImpl(cs) ELSE cs
 IrrCmp(eco, x, y) == IF eco = "maven" THEN MvListCmp(x, y, 1) ELSE IF eco = "alpm" THEN AlpmCmp(x, y) ELSE 2
+
+\* members on which the ecosystem's reference order itself is not a total preorder (see KF-alpm-01,
+\* KF-maven-01): convexity (C20) is not claimed across them
+OrderIrregular(eco, cs) == (eco = "alpm" /\ AlpmIrregular(cs)) \/ (eco = "maven" /\ ~MvRegular(cs))
 
 KnownAs(open, mm) ==
   LET S == {d \in open : Dev(d, mm)} IN IF S = {} THEN "" ELSE CHOOSE d \in S : TRUE
